@@ -10,3 +10,7 @@ impl Drop for TaskEnd {
         iroh_base::verif::event("direct_addr.run.task_end", String::new);
     }
 }
+
+/// State-level harness: a `DirectAddrUpdateState` driven by hand (defined next to it in
+/// `socket/verif_c25.rs`).
+pub use crate::socket::verif_c25::{Reason, StateHarness, StateHarnessFactory};
